@@ -35,12 +35,18 @@ class AggMachine(finite.Machine):
         self.slot = slot
         self.ord = order   # 'lt' | 'eq' | 'gt'  (value relative to current)
         self.reads_operand = 0
+        self.query_answer = True      # answer given to a state query on the accumulator (`store[h].is_empty()`)
+        self.queries = 0
 
     def _call(self, e, st, m):
         src = ast.unparse(e.func)
         if src.startswith('self.operands[') and len(e.args) == 1 and ast.unparse(e.args[0]) == 'context':
             self.reads_operand += 1
             return self.value
+        if isinstance(e.func, ast.Attribute) and _is_slot(e.func.value) and not e.args and not e.keywords:
+            # a question asked of the accumulator: both answers are explored by the rule
+            self.queries += 1
+            return self.query_answer
         if src in ('min', 'max') and len(e.args) == 2 and not e.keywords:
             a, b = (self.ev(x, st) for x in e.args)
             if a is None or b is None:
@@ -101,8 +107,9 @@ class AggMachine(finite.Machine):
         return super().stmt(s, st)
 
 
-def _run_update(fi, value, slot, order='gt'):
+def _run_update(fi, value, slot, order='gt', query_answer=True):
     m = AggMachine(value, slot, order)
+    m.query_answer = query_answer
     try:
         m.run(body_without_docstring(fi.node), {})
     except finite.Return:
@@ -146,6 +153,8 @@ def rule_aggclass(P) -> RuleResult:
                     except AnalysisError as exc:
                         raise AnalysisError(f'{ci.fq}.update: {exc}') from exc
                     cases.append((value, slot, order, m))
+                    if m.queries:
+                        cases.append((value, slot, order, _run_update(upd, value, slot, order, query_answer=False)))
         for value, slot, order, m in cases:
             for e in m.events:
                 if e[0] == 'null-compare':
